@@ -30,7 +30,11 @@ Class(ev) ==
   ELSE IF ev.heapgrowth > HeapLimit THEN "BAD_HOSTILE_MEMORY"
   ELSE IF ev.outcome = "internal" THEN
          \* known finding: the streaming pipeline reports a condition that cannot be evaluated as an internal error
-         (IF ev.pipelinecond THEN "KF_PipelineCondInternal" ELSE "BAD_HOSTILE_INTERNAL_ERROR")
+         (IF ev.pipelinecond THEN "KF_PipelineCondInternal"
+          \* known finding KF-23: a tuple with malformed fields that reached the store behind the API's back
+          \* makes later ListObjects / Read requests on that store fail with an internal error
+          ELSE IF ev.hostilestore THEN "KF_MalformedStoredTupleInternalError"
+          ELSE "BAD_HOSTILE_INTERNAL_ERROR")
   ELSE IF ev.outcome = "ok" THEN "OK_ANSWERED" ELSE "OK_REJECTED"
 
 TrCase ==
